@@ -604,17 +604,24 @@ __visible_default __noreturn void pthread_exit(void *retval)
 
 	mtdp = get_thread_data();
 	if (!mcount_estimate_return && !check_thread_data(mtdp)) {
-		rstack = &mtdp->rstack[mtdp->idx - 1];
-		/* record the final call */
-		mcount_exit_filter_record(mtdp, rstack, NULL);
+		/*
+		 * it won't return to the caller ("noreturn") but the unwinder
+		 * started by pthread_exit() walks through every caller, so
+		 * give all of them their return address back...
+		 */
+		mcount_rstack_restore(mtdp);
 
 		/*
-		 * it won't return to the caller ("noreturn"),
-		 * do not try to restore the address..
+		 * ... and drop every open call now (recording the final calls
+		 * as before): the thread never returns through these frames,
+		 * and entries left behind would be "restored" by mtd_dtor()
+		 * onto stack slots that are in use again by then.
 		 */
-		mtdp->idx--;
-
-		mcount_rstack_restore(mtdp);
+		while (mtdp->idx > 0) {
+			rstack = &mtdp->rstack[mtdp->idx - 1];
+			mcount_exit_filter_record(mtdp, rstack, NULL);
+			mtdp->idx--;
+		}
 	}
 
 	if (!check_thread_data(mtdp))
